@@ -315,6 +315,10 @@ func (g *c05g) switchStmt(sc *c05scope) *sx {
 		tag = A("_")
 	}
 	ncl := 1 + g.r.Intn(4)
+	if !tagless && !init.isl && g.chance(40) {
+		// tag = small value so that listed constants are hit often
+		tag = Lst(A("-"), Lst(A("+"), A(g.pick([]string{"v0", "v1", "v2", "v3"})), A(fmt.Sprint(g.r.Intn(5)))), A("1"))
+	}
 	sparse := g.chance(35)
 	vals := g.r.Perm(7)
 	vi := 0
@@ -336,7 +340,7 @@ func (g *c05g) switchStmt(sc *c05scope) *sx {
 			cls = append(cls, Lst(append([]*sx{A("default"), A(ft)}, body...)...))
 			continue
 		}
-		ng := 1 + g.r.Intn(2)
+		ng := 1 + g.r.Intn(3)
 		var gs []*sx
 		for j := 0; j < ng; j++ {
 			switch {
@@ -344,6 +348,9 @@ func (g *c05g) switchStmt(sc *c05scope) *sx {
 				gs = append(gs, Lst(A("c"), Lst(A(g.pick([]string{"<", "<=", "==", "!="})), g.varExpr(sc), g.expr(sc))))
 			case g.chance(12):
 				gs = append(gs, g.varExpr(sc)) // non-constant case expression
+			case g.chance(18):
+				// non-constant case expression with a side effect; its value may equal a constant listed later
+				gs = append(gs, Lst(A("g"), g.tag(), A(fmt.Sprint(g.r.Intn(6)-1))))
 			case vi < len(vals):
 				v := vals[vi] - 1
 				vi++
@@ -476,11 +483,14 @@ func (g *c05g) program() []*sx {
 }
 
 func c05gen(r *rand.Rand, tier string, emit func(string)) {
-	n := 1200
+	n := 1000
 	if tier == "thorough" {
 		n = 30000
 	}
 	for _, p := range c05systematic() {
+		emit("prog 20000 " + p)
+	}
+	for _, p := range c05switchFamily() {
 		emit("prog 20000 " + p)
 	}
 	for _, src := range c05srcPrograms() {
@@ -495,6 +505,37 @@ func c05gen(r *rand.Rand, tier string, emit func(string)) {
 		}
 		emit("prog 20000 " + strings.Join(parts, " "))
 	}
+}
+
+// c05switchFamily: case clauses mixing constants and side-effecting expressions in all orders, every tag value
+// (Go: case expressions are evaluated left to right, top to bottom, until one matches)
+func c05switchFamily() []string {
+	as := []string{"0", "0 1", "(g 6 0)", "1 (g 6 0)"}
+	bs := []string{"(g 7 1) 2", "2 (g 7 1)", "(g 7 2) 2", "(g 7 9) 2 3", "2 (g 7 9) 3", "(g 7 5) 2 (g 8 6) 3", "v1 2", "2 3"}
+	cs := []string{"4", "(g 9 4)", "4 (g 9 3)", "(g 9 3) 4"}
+	var out []string
+	n := 0
+	for _, a := range as {
+		for _, b := range bs {
+			for _, c := range cs {
+				for d := 0; d <= 4; d += 2 {
+					n++
+					cl := []string{
+						"(case (" + a + ") _ (e 1 v10))",
+						"(case (" + b + ") " + []string{"_", "ft"}[n%2] + " (e 2 v10))",
+						"(case (" + c + ") _ (e 3 v10))",
+					}
+					if d < 4 {
+						dc := "(default _ (e 4 v10))"
+						cl = append(cl[:d], append([]string{dc}, cl[d:]...)...)
+					}
+					tag := []string{"v10", "(+ v10 0)", "(- v10 1)"}[n%3]
+					out = append(out, "(for () (: v10 0) (< v10 7) (= v10 (+ v10 1)) (sw () _ "+tag+" "+strings.Join(cl, " ")+")) (e 9 v0)")
+				}
+			}
+		}
+	}
+	return out
 }
 
 // c05systematic enumerates loop form x nesting shape x jump kind (bounded-exhaustive core family)
